@@ -243,6 +243,9 @@ async def dropwhile(
             if not await predicate(item):
                 yield item
                 break
+        else:
+            # exhausted while dropping: do not poll the iterator again
+            return
         async for item in async_iter:
             yield item
 
